@@ -53,7 +53,7 @@ TABLE = [
     {'name': 'RetainState_mcP.cfg', 'comment': 'exhaustive, parameters focus: block > component, scopes and assignments only (quick)', 'N': 2, 'NVal': 2, 'NGrid': 2, 'MaxDepth': 2, 'MaxLevel': 6, 'keeps': 'KeepsTwo', 'acts': 'ActsParams', 'tree': 'D'},
     {'name': 'RetainState_mcP_thorough.cfg', 'comment': 'exhaustive, parameters focus: block > 2 components (shared definitions), nesting 3, all keep-sets (thorough)', 'N': 3, 'NVal': 2, 'NGrid': 2, 'MaxDepth': 3, 'MaxLevel': 5, 'keeps': 'KeepsFull', 'acts': 'ActsParams', 'tree': 'A'},
     {'name': 'RetainState_mcG.cfg', 'comment': 'exhaustive, grid/cache focus: assembly > block > component, nesting 3 (quick)', 'N': 3, 'NVal': 2, 'NGrid': 2, 'MaxDepth': 3, 'MaxLevel': 7, 'keeps': 'KeepsNone', 'acts': 'ActsGrid', 'tree': 'B'},
-    {'name': 'RetainState_mcG_thorough.cfg', 'comment': 'exhaustive, grid/cache focus, 3 grid values, deeper (thorough)', 'N': 3, 'NVal': 2, 'NGrid': 3, 'MaxDepth': 3, 'MaxLevel': 8, 'keeps': 'KeepsNone', 'acts': 'ActsGrid', 'tree': 'B'},
+    {'name': 'RetainState_mcG_thorough.cfg', 'comment': 'exhaustive, grid/cache focus, 3 grid values, deeper (thorough)', 'N': 3, 'NVal': 2, 'NGrid': 3, 'MaxDepth': 3, 'MaxLevel': 7, 'keeps': 'KeepsNone', 'acts': 'ActsGrid', 'tree': 'B'},
     {'name': 'RetainState_mcC.cfg', 'comment': 'exhaustive, copy/read-only focus: block > component + 2 pool ids (quick)', 'N': 4, 'NVal': 2, 'NGrid': 2, 'MaxDepth': 1, 'MaxLevel': 5, 'keeps': 'KeepsSmall', 'acts': 'ActsCopy', 'tree': 'D'},
     {'name': 'RetainState_mcC_thorough.cfg', 'comment': 'exhaustive, copy/read-only focus: block > 2 components + 3 pool ids (thorough)', 'N': 6, 'NVal': 2, 'NGrid': 2, 'MaxDepth': 1, 'MaxLevel': 5, 'keeps': 'KeepsSmall', 'acts': 'ActsCopy', 'tree': 'A'},
     {'name': 'RetainState_emitP.cfg', 'comment': 'edge emission, parameters focus (quick)', 'N': 2, 'NVal': 2, 'NGrid': 2, 'MaxDepth': 2, 'MaxLevel': 5, 'keeps': 'KeepsTwo', 'acts': 'ActsParams', 'tree': 'D', 'emit': True},
